@@ -10,7 +10,9 @@ import (
 var c05exprs = []string{"@", "@ + 1", "1 + @", `"a" + @`, "@ - 1", "@ * 2", "4 / @", "@ < 1", "1 <= @", "@ == 1", "1 != @", "@ == nil", "nil != @", "@ && t", "t && @", "@ || f", "f || @", "!@", "!!@", "(@)",
 	"[1, @]", "{a: @}", "xs[@]", "@[0]", "id(@)", `rec2(@, 1)`, `rec2("a", @)`, "rec7(1, @)", "g(@)", "g(1, @)", `o.In.Hello(@)`, "truncate(@, {size: 1})", "len(@)", "rec3(cnt(), @, t)", "@ == undefinedVar", "undefinedVar != @",
 	// arguments beyond the parameter list (of a user function, of a Go helper): invoked or not, never swallowed
-	"g(1, 2, @)", "g(1, 2, @, 3)", "g(1, 2, 3, @)", "id(1, @)", "cnt(@)", "rec2(\"a\", 1, @)"}
+	"g(1, 2, @)", "g(1, 2, @, 3)", "g(1, 2, 3, @)", "id(1, @)", "cnt(@)", "rec2(\"a\", 1, @)",
+	// the failing call as the value of an assignment (to an undeclared and to a declared name) that is itself a tolerant operand
+	"!(undeclared = @)", "(undeclared = @) == nil", "f || (undeclared = @)", "t && (undeclared = @)", "id(undeclared = @)", "!(xs = @)", "(vs = @) != nil", "[(undeclared = @)]"}
 
 var c05ctxs = []string{"<%= E %>", "<% E %>", "<% let q = E %>", "<% let q = 1 %><% q = E %>", "<%= if (E) { %>a<% } %>", "<%= if (f) { %>a<% } else if (E) { %>b<% } %>",
 	"<%= if (t) { %><%= E %><% } %>", "<%= if (f) { %>a<% } else { %><%= E %><% } %>", "<%= for (x) in E { %>a<% } %>", "<%= for (x) in xs { %><%= E %><% } %>", "<%= for (x) in xs { %><% if (E) { break } %>z<% } %>", "<%= for (x) in range(1, 3) { %><%= x %>-<%= E %><% } %>", "<%= for (x) in until(3) { %><%= x %><% if (x == 1) { %><%= E %><% } %><% } %>", "<%= for (g) in groupBy(1, xs) { %><%= E %><% } %>", "<%= for (k, v) in mi { %><%= E %><% } %>", "<%= for (x) in between(0, 3) { %>a<% E %>b<% } %>",
